@@ -7,25 +7,28 @@
      C19_iter_terminates : forall m e, dwf m -> owned m e ->
                              exists fuel m' l, iter_derivatives fuel m e = Some (m', l),
 
-   is FALSE as it stands (C19_iter_terminates_refuted below): the derivative of
-   (b | c a^4294967295) a^5 by c rebuilds a^4294967295 . a^5, and the u32 addition of the loop
-   bounds in ReManager::concat panics (confirmed on the crate: "Arithmetic overflow (add u32)" in
-   char_derivative and in iter_derivatives).  What IS proved, with no bound on sizes or steps:
+   was FALSE for the pinned code (defect D11): the derivative of (b | c a^4294967295) a^5 by c rebuilds
+   a^4294967295 . a^5, and the u32 addition of the loop bounds in ReManager::concat panicked
+   (confirmed on the crate: "Arithmetic overflow (add u32)" in char_derivative and in
+   iter_derivatives).  D11 is repaired in the crate (the loop-merging rules of concat and the
+   loop-of-loop flattening of mk_loop apply only when the new bounds fit in u32) and in the model;
+   C01_concat_prefix_panics / D11_prefix_witness record the old behaviour.  What is proved now, with no
+   bound on sizes, steps or loop bounds:
 
    (1) C19_iter_no_divergence: the exploration cannot run forever.  For every manager m that is
        well formed (dwf) and whose derivative cache is honest (hon, see below) and every owned
        term e, the three-valued run [iter_status] with fuel  term_bound (counter m) (phi e) + 1
-       is not OutOfFuel: it has returned, or a class derivative has panicked.  This is Brzozowski's
+       is not OutOfFuel.  This is Brzozowski's
        finiteness theorem for this crate's normal forms (flattening, id-sorted ACI unions and
        intersections, neutral / absorbing elements, complementary pairs, subsumption pruning by the
-       syntactic inclusion test, the ten concat rules with re-association and loop merging,
-       loop-of-loop flattening, complement by id xor 1), for the full term language (complement and
+       syntactic inclusion test, the ten concat rules with re-association and guarded loop merging,
+       guarded loop-of-loop flattening, complement by id xor 1), for the full term language (complement and
        intersection included) and for arbitrary, not necessarily normalised, owned terms.
-   (2) C19_cached_deriv_total_bounded_potential_partial / C19_iter_terminates_bounded_potential_partial:
-       if the potential phi e of the start term is at most U32MAX, no constructor call inside any
-       derivative panics and the exploration returns Some.  phi e is a number computed from the
-       term alone; C19_iter_terminates_program_partial bounds it by [pphi p], computed from the
-       construction program alone (string lengths, loop bounds).
+   (2) C19_cached_deriv_total / C19_iter_never_panics / C19_iter_terminates: no constructor call
+       inside any derivative panics and the exploration returns Some, for every owned term
+       (before the repair: only for terms of potential phi e <= U32MAX).
+       C19_iter_terminates_program: every accepted construction program followed by the
+       exploration of its result returns.
    (3) the users of the exploration (is_empty_re, get_string, compile, try_compile) return under the
        same hypotheses.
 
@@ -36,7 +39,8 @@
    non-union term pays one extra unit (CW) wherever a derivative may replace it by a union.
    C19t_constructors_potential: every smart constructor returns a term whose potential is at most
    that of the node it stands for (all ten concat rules, loop merging included, are equalities or
-   decreases for this potential).  C19t_derivative_potential: hence phi (d_c e) <= phi e.  The
+   decreases for this potential; a merge that is skipped because its bounds leave u32 yields the
+   plain node, whose potential is the bound itself).  C19t_derivative_potential: hence phi (d_c e) <= phi e.  The
    potential bounds the height, the concat lengths and the loop counters of a term, the nodes
    created by derivatives are never leaves and have duplicate-free operand lists ([nn]), so after
    erasing the ids of the new nodes ([erase], injective on the terms of one manager:
@@ -50,14 +54,16 @@
      and exploration (C19_honest_new, _run, _iter), i.e. for every manager the public API can reach; it is a
      hypothesis because dwf only constrains the LANGUAGE of cached derivatives, not their syntax.
    - [iter_status]: [iter_derivatives] with the two reasons for None told apart:
-     Panicked = a class derivative returned None (the Rust code panics), OutOfFuel = fuel ran out.
+     Panicked = a class derivative returned None (the Rust code panics; impossible since the repair
+     of D11: C19_iter_never_panics), OutOfFuel = fuel ran out.
    - [nn c0 m]: the nodes of m with id >= c0 are concatenations, loops, complements, or unions /
      intersections with duplicate-free operand lists.
 
    NOT PROVED: that [hon] is necessary (no diverging run from a dishonest but dwf manager was
-   found), and a tight bound ([term_bound] is a tower of exponentials in phi e).                  *)
+   found; every manager the API can reach is honest), and a tight bound ([term_bound] is a tower of
+   exponentials in phi e).                                                                       *)
 Require Import Base CharSet Partition PartitionSpec LoopRange Regex Inclusion Constructors Deriv Explore
-  Automaton Compile Denote Sem ManagerProofs RunProofs DerivProofs.
+  Automaton Compile Denote Sem ManagerProofs ConstructorProofs RunProofs DerivProofs.
 Require Import Termination TerminationPot TerminationNorm TerminationDeriv TerminationFin TerminationTotal
   TerminationRun TerminationProofs TerminationUsers.
 Open Scope N_scope.
@@ -133,27 +139,42 @@ Theorem C19_iter_terminates_or_panics : forall m e, dwf m -> hon m -> owned m e 
 Proof. exact iter_terminates_or_panics. Qed.
 Print Assumptions C19_iter_terminates_or_panics.
 
-(* (2) no constructor call inside a derivative panics if the potential fits in a u32 *)
-Theorem C19_cached_deriv_total_bounded_potential_partial : forall e m cid,
-  dwf m -> hon m -> owned m e -> pvalid (rcls e) cid = true -> phi e <= U32MAX ->
+(* (2) no constructor call inside a derivative panics (D11 repaired): no bound on the potential, and the
+   honest-cache hypothesis is not needed for this *)
+Theorem C19_cached_deriv_total : forall e m cid,
+  dwf m -> owned m e -> pvalid (rcls e) cid = true ->
   exists m' d, cached_deriv e m cid = Some (m', d).
 Proof. exact cached_deriv_total. Qed.
-Print Assumptions C19_cached_deriv_total_bounded_potential_partial.
+Print Assumptions C19_cached_deriv_total.
 
-(* full statement C19_iter_terminates (header) + the two hypotheses [hon m] and [phi e <= U32MAX] *)
-Theorem C19_iter_terminates_bounded_potential_partial : forall m e,
-  dwf m -> hon m -> owned m e -> phi e <= U32MAX ->
-  exists m' l, iter_derivatives (S (term_bound (counter m) (phi e))) m e = Some (m', l).
-Proof. exact iter_terminates_small. Qed.
-Print Assumptions C19_iter_terminates_bounded_potential_partial.
+(* ... and what it returns is no larger and keeps the invariants of the termination argument *)
+Theorem C19_cached_deriv_total_potential : forall c0 e m cid,
+  dwf m -> hon m -> nn c0 m -> owned m e -> pvalid (rcls e) cid = true ->
+  exists m' d, cached_deriv e m cid = Some (m', d) /\
+    (dwf m' /\ ext m m' /\ owned m' d) /\ phi d <= phi e /\ hon m' /\ nn c0 m'.
+Proof. exact cached_deriv_total_pot. Qed.
+Print Assumptions C19_cached_deriv_total_potential.
 
-(* for the term built by a construction program (the public constructors), from any honest manager,
-   with the bound computed from the program *)
-Theorem C19_iter_terminates_program_partial : forall p m0 m e,
-  dwf m0 -> hon m0 -> prog_ok p = true -> run p m0 = Some (m, e) -> pphi p <= U32MAX ->
+Theorem C19_iter_never_panics : forall fuel m e, dwf m -> hon m -> owned m e ->
+  iter_status fuel m e <> Panicked.
+Proof. exact iter_never_panics. Qed.
+Print Assumptions C19_iter_never_panics.
+
+(* the statement C19_iter_terminates of the header, for every manager with an honest cache (every
+   manager the public API can reach: C19_honest_new, _run, _iter); the fuel is explicit *)
+Theorem C19_iter_terminates : forall m e,
+  dwf m -> hon m -> owned m e ->
   exists m' l, iter_derivatives (S (term_bound (counter m) (phi e))) m e = Some (m', l).
-Proof. exact program_iter_terminates_pphi. Qed.
-Print Assumptions C19_iter_terminates_program_partial.
+Proof. exact iter_terminates. Qed.
+Print Assumptions C19_iter_terminates.
+
+(* for the term built by a construction program (the public constructors) from any honest manager:
+   the program runs (C01_run_total) and the exploration of its result returns *)
+Theorem C19_iter_terminates_program : forall p m0, dwf m0 -> hon m0 -> prog_ok p = true ->
+  exists m e m' l, run p m0 = Some (m, e) /\
+    iter_derivatives (S (term_bound (counter m) (phi e))) m e = Some (m', l).
+Proof. exact program_iter_total. Qed.
+Print Assumptions C19_iter_terminates_program.
 
 Theorem C19t_program_potential : forall p m m' t, wf m -> prog_ok p = true -> run p m = Some (m', t) ->
   phi t <= pphi p /\ vl t <= pvl p.
@@ -192,51 +213,54 @@ Theorem C19_honest_iter : forall fuel m e m' l, dwf m -> hon m -> owned m e ->
 Proof. exact iter_hon. Qed.
 Print Assumptions C19_honest_iter.
 
-(* ---------------- the unconditional statements are false ---------------- *)
+(* ---------------- defect D11: the old behaviour, and the witness term after the repair ---------------- *)
 
-(* a manager and a term built by the public constructors on which a derivative panics, so that the
-   exploration returns for no fuel; its potential is U32MAX + 9 *)
-Theorem C19_iter_terminates_refuted :
+(* a^4294967295 and a^5, built by the public constructors: the pre-repair concat rule
+   R^[a,b].R^[c,d] -> R^[a+c,b+d] adds the bounds with the panicking LoopRange::add (None);
+   the repaired concat returns the plain concatenation node *)
+Theorem D11_prefix_witness :
+  exists m1 x m2 y, run d11_left new_mgr = Some (m1, x) /\ run d11_right m1 = Some (m2, y) /\
+    (exists a, rnode x = NLoop a (LR 4294967295 (Some 4294967295)) /\ rnode y = NLoop a (LR 5 (Some 5))) /\
+    lr_add (LR 4294967295 (Some 4294967295)) (LR 5 (Some 5)) = None /\
+    concat_prefix x m2 y = None /\
+    exists m3 t, concat x m2 y = Some (m3, t) /\ rnode t = NConcat x y.
+Proof. exact TerminationProofs.D11_prefix_witness. Qed.
+Print Assumptions D11_prefix_witness.
+
+(* (b | c a^4294967295) a^5, potential U32MAX + 9: this was the witness of C19_iter_terminates_refuted
+   (its derivative by c panicked).  Now the class derivative and char_derivative by c return, and the
+   exploration returns (by C19_iter_terminates; it enumerates about 2^32 terms) *)
+Theorem C19_iter_overflow_witness_repaired :
   exists m e, prog_ok overflow_prog = true /\ run overflow_prog new_mgr = Some (m, e) /\
-    dwf m /\ hon m /\ owned m e /\
-    pvalid (rcls e) (CInt 1) = true /\ cached_deriv e m (CInt 1) = None /\
-    (forall fuel, iter_derivatives fuel m e = None) /\
-    phi e = U32MAX + 9.
-Proof. exact iter_overflow_witness. Qed.
-Print Assumptions C19_iter_terminates_refuted.
-
-Theorem C19_iter_terminates_unconditional_refuted :
-  ~ (forall m e, dwf m -> owned m e -> exists fuel m' l, iter_derivatives fuel m e = Some (m', l)).
-Proof. exact iter_terminates_unconditional_refuted. Qed.
-Print Assumptions C19_iter_terminates_unconditional_refuted.
-
-Theorem C19_cached_deriv_total_refuted :
-  ~ (forall m e cid, dwf m -> owned m e -> pvalid (rcls e) cid = true ->
-       exists m' d, cached_deriv e m cid = Some (m', d)).
-Proof. exact cached_deriv_total_unconditional_refuted. Qed.
-Print Assumptions C19_cached_deriv_total_refuted.
+    dwf m /\ hon m /\ owned m e /\ phi e = U32MAX + 9 /\
+    pvalid (rcls e) (CInt 1) = true /\
+    (exists m' d, cached_deriv e m (CInt 1) = Some (m', d)) /\
+    (exists m' d, char_derivative m e 99 = Some (m', d)) /\
+    (exists fuel m' l, iter_derivatives fuel m e = Some (m', l)).
+Proof. exact iter_overflow_witness_repaired. Qed.
+Print Assumptions C19_iter_overflow_witness_repaired.
 
 (* ---------------- the users of the exploration return ---------------- *)
 
-Theorem C19_is_empty_re_terminates_partial : forall m e, dwf m -> hon m -> owned m e -> phi e <= U32MAX ->
+Theorem C19_is_empty_re_terminates : forall m e, dwf m -> hon m -> owned m e ->
   exists fuel m' b, is_empty_re fuel m e = Some (m', b).
 Proof. exact is_empty_re_terminates. Qed.
-Print Assumptions C19_is_empty_re_terminates_partial.
+Print Assumptions C19_is_empty_re_terminates.
 
-Theorem C19_get_string_terminates_partial : forall m e, dwf m -> hon m -> owned m e -> phi e <= U32MAX ->
+Theorem C19_get_string_terminates : forall m e, dwf m -> hon m -> owned m e ->
   exists fuel m' res, get_string fuel m e = Some (m', res).
 Proof. exact get_string_terminates. Qed.
-Print Assumptions C19_get_string_terminates_partial.
+Print Assumptions C19_get_string_terminates.
 
-Theorem C19_compile_terminates_partial : forall m e, dwf m -> hon m -> owned m e -> phi e <= U32MAX ->
+Theorem C19_compile_terminates : forall m e, dwf m -> hon m -> owned m e ->
   exists fuel m' A, compile_with_bound fuel m e None = Some (m', Some A).
 Proof. exact compile_terminates. Qed.
-Print Assumptions C19_compile_terminates_partial.
+Print Assumptions C19_compile_terminates.
 
-Theorem C19_try_compile_terminates_partial : forall m e n, dwf m -> hon m -> owned m e -> phi e <= U32MAX ->
+Theorem C19_try_compile_terminates : forall m e n, dwf m -> hon m -> owned m e ->
   exists fuel m' oa, compile_with_bound fuel m e (Some n) = Some (m', oa).
 Proof. exact try_compile_terminates. Qed.
-Print Assumptions C19_try_compile_terminates_partial.
+Print Assumptions C19_try_compile_terminates.
 
 (* ---------------- the hypotheses are satisfiable; the definitions compute ---------------- *)
 
@@ -257,7 +281,7 @@ Example ex_run :
   | None => false
   end = true.
 Proof. vm_compute. reflexivity. Qed.
-(* the potential of the overflow witness is just above the threshold, that of a^4294967295 . b is below *)
+(* the potential of the D11 witness is above U32MAX (no bound on the potential is needed any more) *)
 Example ex_threshold :
   pphi (PConcat (PLoop (PRange 97 97) 4294967280 (Some 4294967280)) (PRange 98 98)) <= U32MAX /\
   U32MAX < pphi overflow_prog.
